@@ -46,7 +46,8 @@ static int dcr_int(const char *s, int *out)
 	while (dcr_isspace(s[i])) i++;
 	if (s[i] == '+' || s[i] == '-') { neg = s[i] == '-'; i++; }
 	while (s[i] >= '0' && s[i] <= '9') {
-		if (v < (1ULL << 40)) v = v * 10 + (unsigned)(s[i] - '0');   /* saturating accumulator */
+		if (nd < 15) v = v * 10 + (unsigned)(s[i] - '0');   /* 15 digits fit; */
+		else v = 1ULL << 60;                                 /* more digits: certainly beyond int */
 		i++; nd++;
 	}
 	if (!nd) { if (s[0] != 0) return 0; *out = 0; return 1; }   /* "" reads as 0 (atoi); other digit-less text is malformed */
